@@ -264,8 +264,6 @@ func (c *Client) SearchLocksVerifiable(limit int, cached bool) (ourLocks, theirL
 			Limit: limit,
 		}
 
-		cacheCleared := false
-
 		for {
 			list, status, err := c.client.SearchVerifiable(c.Remote, body)
 			switch status {
@@ -286,17 +284,7 @@ func (c *Client) SearchLocksVerifiable(limit int, cached bool) (ourLocks, theirL
 				return ourLocks, theirLocks, errors.New(tr.Tr.Get("server error searching locks: %s", list.Message))
 			}
 
-			if !cacheCleared {
-				// Only forget what we know about locks once
-				// the server has actually told us what they are; a
-				// failed request must not leave us believing that
-				// there are no locks.
-				c.cache.Clear()
-				cacheCleared = true
-			}
-
 			for _, l := range list.Ours {
-				c.cache.Add(l)
 				ourLocks = append(ourLocks, l)
 				if limit > 0 && (len(ourLocks)+len(theirLocks)) >= limit {
 					return ourLocks, theirLocks, nil
@@ -304,7 +292,6 @@ func (c *Client) SearchLocksVerifiable(limit int, cached bool) (ourLocks, theirL
 			}
 
 			for _, l := range list.Theirs {
-				c.cache.Add(l)
 				theirLocks = append(theirLocks, l)
 				if limit > 0 && (len(ourLocks)+len(theirLocks)) >= limit {
 					return ourLocks, theirLocks, nil
@@ -316,6 +303,18 @@ func (c *Client) SearchLocksVerifiable(limit int, cached bool) (ourLocks, theirL
 			} else {
 				break
 			}
+		}
+
+		// Only now that the server has answered the whole listing do we
+		// replace what we knew about locks; a request that failed, on
+		// whichever page, must not leave us with an empty or truncated
+		// cache.
+		c.cache.Clear()
+		for _, l := range ourLocks {
+			c.cache.Add(l)
+		}
+		for _, l := range theirLocks {
+			c.cache.Add(l)
 		}
 
 		if limit == 0 {
